@@ -221,7 +221,9 @@ func sameFields(a, b []hpack.HeaderField) bool {
 func (p *endpointPair) compare(tag string, streams []uint32) {
 	vf.Assert(p.curItem == nil, tag+":no-unterminated-header-block")
 	for _, id := range streams {
-		s, r := p.sent[id], p.recv[id]
+		// DATA is compared as a byte stream with its end-of-stream position, not frame by frame:
+		// the property fixes the bytes and where the stream ends, not how the relay cuts them
+		s, r := coalesceData(p.sent[id]), coalesceData(p.recv[id])
 		vf.Assert(len(s) == len(r), tag+":same-number-of-stream-frames")
 		if len(s) != len(r) {
 			return
@@ -252,6 +254,23 @@ func (p *endpointPair) compare(tag string, streams []uint32) {
 			}
 		}
 	}
+}
+
+// coalesceData merges every run of consecutive DATA items into one item carrying the
+// concatenated bytes and the END_STREAM flag of the run's last frame (a frame after END_STREAM
+// cannot exist, so the flag marks the position at which the stream ends).
+func coalesceData(items []item) []item {
+	var out []item
+	for _, it := range items {
+		if it.kind == kData && len(out) > 0 && out[len(out)-1].kind == kData && !out[len(out)-1].end {
+			last := &out[len(out)-1]
+			last.data = append(append([]byte(nil), last.data...), it.data...)
+			last.end = it.end
+			continue
+		}
+		out = append(out, it)
+	}
+	return out
 }
 
 func symPriority(name string) *http2.PriorityParam {
